@@ -480,3 +480,50 @@ def r11_6(prog, out):
     else:
         out.violation(key, site or bi.loc(rem[0].bb), "the topic detaches a subscription by name only, and the request can be issued from a handle of an incarnation that is "
                       "already deleted: a stale (e.g. racing second) DeleteSubscription detaches a newer subscription created under the same name, which then exists but receives nothing")
+
+
+@rule("C11", "R11.7", "the topic's subscription listing is computed from the live attachment set on every request", floor=1)
+@rule("C13", "R11.7", "the topic's subscription listing is computed from the live attachment set on every request", floor=1)
+def r11_7(prog, out):
+    """ListTopicSubscriptions must equal the set of live subscriptions at every quiescent moment: the page is cut from
+    TopicActor.subscriptions itself, not from a copy that lives across requests (a snapshot refreshed `when the size changed`
+    misses a delete followed by a create)."""
+    R = roles(prog)
+    A = prog.anchors
+    sl = Slicer(prog)
+    actor = R.topic_actor
+    listers = []
+    for vname in actor.variants:
+        fields = [f["ty"] for v in prog.facts.adt(actor.request)["variants"] if v["name"] == vname for f in v["fields"]]
+        if any(A.ty("Paging") in t for t in fields):
+            listers += [(vname, t) for t in R.variant_targets(actor, vname)]
+    if not listers:
+        # the list handler may be written into the dispatcher
+        listers = [(v, actor.dispatch) for v in actor.variants if any(A.ty("Paging") in f["ty"] for vv in prog.facts.adt(actor.request)["variants"] if vv["name"] == v for f in vv["fields"])]
+    if not listers:
+        raise CheckBroken("no topic request carries a Paging")
+    page_ty = "crate::subscriptions::paging::SubscriptionsPage"
+    for vname, tid in listers:
+        bi = prog.info(tid)
+        key = "live-listing:%s" % prog.short(tid)
+        # what the page is built from
+        src = None
+        for (cb, bb, i, rv) in prog.constructions_in(tid):
+            if rv.j.get("adt") == page_ty:
+                src = (bb, rv.ops[0])
+        for bb, t in bi.calls(lambda c: c.target.startswith(page_ty + "::")):
+            if t.args:
+                src = (bb, t.args[0])
+        if src is None:
+            out.undecided(key, prog.loc(tid), "construction of the page not found")
+            continue
+        s0 = sl.of(tid, src[1])
+        own = {f for f in s0.fields if f[0] == actor.ty}
+        other = sorted(f[1] for f in own if f != R.topic_subs)
+        if R.topic_subs in own and not other:
+            out.holds(key, bi.loc(src[0]), "the page is cut from TopicActor.subscriptions as it is when the request is handled")
+        elif other:
+            out.violation(key, bi.loc(src[0]), "the listing is served from TopicActor.%s, a copy of the attachment set kept across requests: after a delete followed by a "
+                          "create (or any change the refresh condition does not notice) ListTopicSubscriptions differs from the live subscriptions" % other[0])
+        else:
+            out.violation(key, bi.loc(src[0]), "the listing is not derived from TopicActor.subscriptions")
